@@ -683,6 +683,9 @@ class MasterWorld:
                 if cyc == 'L' and (not cfg.get('allow_late', False) or kind in (
                         'noop', 'tick', 'restart')):
                     continue
+                if cyc == 'L' and 'late_kinds' in cfg and \
+                        kind not in cfg['late_kinds']:
+                    continue
                 menu.append(tuple(e) + (cyc,))
         return menu
 
